@@ -316,7 +316,8 @@ def rule_F_SKELETON_ALL(ctx, floor=25):
         r = ref.get(name)
         site = "%s:%s" % (it["span"]["file"], it["span"]["line"])
         if r is None:
-            ctx.ob("F-SKELETON-ALL", name, False, "new formatter function without a reviewed skeleton", site)
+            # a function added next to the reviewed ones is not evidence against the property (control: a new unrelated API); it is listed
+            ctx.extra.setdefault("unreviewed_new_functions", []).append(name)
             continue
         d = _diff(r["skeleton"], sk)
         ctx.ob("F-SKELETON-ALL", name, d is None, d or "", site)
